@@ -45,6 +45,7 @@ package metrics
 
 //@ func NewExtractor
 //@   property C20
+//@   safety
 //@   requires profileFactory != nil
 //@   ensures res1 == nil ==> res0 != nil && res0.profileFactory == profileFactory
 
